@@ -11,8 +11,14 @@ calls, that `trace`/`timer` wrappers print, that `for_all_methods` returns the c
 replacing its members, and that a required docstring that is missing makes the decoration raise.
 
 The process is a state machine: the value of the environment variable, an append-only table of decoration
-results ("handles") and a table of decorators obtained earlier and applied later ("factories":
-`pedantic()`, `pedantic(require_docstring=True)`, `for_all_methods(d)`, or a plain reference).
+results ("handles"), the object each of them was made from ("targets") and a table of decorators obtained earlier and
+applied later ("factories": `pedantic()`, `pedantic(require_docstring=True)`, `for_all_methods(d)`, or a plain reference).
+
+A decoration is applied either to a fresh object or — `redecorate` / `reapply` — to the very function object an earlier
+decoration was applied to (`f2 = pedantic(f); …; f3 = pedantic(f)`).  The code keeps no per-object state (no cache, no
+marker attribute on the function), so in the model the outcome for a function that has been decorated before is the
+outcome for a fresh one; the correspondence run checks exactly that against the library.  Classes are changed in place by
+`for_all_methods`, so decorating the same class object again is outside the model (`bad`).
 -/
 namespace PedVerif.Switch
 open PedVerif.Gen.Switch
@@ -145,6 +151,8 @@ inductive Op where
   | factory (d : Deco)                -- obtain the decorator now (`pedantic()`, `for_all_methods(x)`, a reference), apply later
   | decorate (d : Deco) (t : Target)  -- apply the decorator to a fresh target; the result becomes the next handle
   | apply (k : Nat) (t : Target)      -- apply the k-th factory to a fresh target; the result becomes the next handle
+  | redecorate (d : Deco) (h : Nat)   -- apply the decorator to the same function object the h-th decoration was applied to
+  | reapply (k : Nat) (h : Nat)       -- apply the k-th factory to that same function object
   | call (h : Nat) (k : CallKind)     -- call the h-th decoration result (for a class: a method of a new instance)
 deriving DecidableEq, Repr
 
@@ -157,6 +165,7 @@ structure St where
   env : Option String
   handles : List Mode
   factories : List Factory
+  targets : List (Option Target) := []   -- the object the i-th handle was made from (`none`: there was none)
 deriving DecidableEq, Repr
 
 inductive Obs where
@@ -168,7 +177,7 @@ inductive Obs where
   | switchError
 deriving DecidableEq, Repr
 
-def init (e : Option String) : St := ⟨e, [], []⟩
+def init (e : Option String) : St := ⟨e, [], [], []⟩
 
 def effObs (e : Effect) (k : CallKind) : Obs :=
   match e with
@@ -195,23 +204,48 @@ def finish (s : St) : DecoOut → St × Obs
   | .switchError => (push s .dead, .switchError)
   | .noRow => (push s .dead, .bad)
 
+/-- remember which object the newest handle was made from -/
+def record (t : Option Target) (p : St × Obs) : St × Obs := ({ p.1 with targets := p.1.targets ++ [t] }, p.2)
+
+/-- the object the h-th decoration was applied to, if it can be decorated again within this model: a function (decorating it
+    made a new wrapper object and left the function as it was); not a class (changed in place) -/
+def again (targets : List (Option Target)) (h : Nat) : Option Target :=
+  match targets[h]? with
+  | some (some t) => if t.isClass then none else some t
+  | _ => none
+
+/-- the decorator is applied now, directly -/
+def decorateNow (s : St) (d : Deco) (t : Target) : St × Obs :=
+  match isEnabledE s.env with
+  | none => finish s .switchError
+  | some en => finish s (decoOut d t (some en) en)
+
+/-- the k-th decorator obtained earlier is applied now -/
+def applyNow (s : St) (k : Nat) (t : Target) : St × Obs :=
+  match s.factories[k]? with
+  | none => finish s .noRow
+  | some f =>
+    match isEnabledE s.env with
+    | none => finish s .switchError
+    | some en => finish s (decoOut f.deco t f.enAt en)
+
 def step (s : St) : Op → St × Obs
   | .setenv v => ({ s with env := some v }, .none)
   | .unsetenv => ({ s with env := none }, .none)
   | .enable => ({ s with env := enableWrites }, .none)
   | .disable => ({ s with env := disableWrites }, .none)
   | .factory d => ({ s with factories := s.factories ++ [⟨d, isEnabledE s.env⟩] }, .none)
-  | .decorate d t =>
-    match isEnabledE s.env with
-    | none => finish s .switchError
-    | some en => finish s (decoOut d t (some en) en)
-  | .apply k t =>
-    match s.factories[k]? with
-    | none => finish s .noRow
-    | some f =>
-      match isEnabledE s.env with
-      | none => finish s .switchError
-      | some en => finish s (decoOut f.deco t f.enAt en)
+  | .decorate d t => record (some t) (decorateNow s d t)
+  | .apply k t => record (some t) (applyNow s k t)
+  | .redecorate d h =>
+    -- nothing in the code remembers that the function was decorated before: the same as for a fresh function
+    match again s.targets h with
+    | none => record none (finish s .noRow)
+    | some t => record (some t) (decorateNow s d t)
+  | .reapply k h =>
+    match again s.targets h with
+    | none => record none (finish s .noRow)
+    | some t => record (some t) (applyNow s k t)
   | .call h k =>
     match s.handles[h]? with
     | none => (s, .bad)
